@@ -419,12 +419,13 @@ pub fn replay_c19(case: &J, rep: &mut Report) -> Result<(), String> {
 
 // ------------------------------------------------------------ C20
 
-fn shaped_collection(rng: &mut Rng, tier: Tier, which: usize) -> (Vec<Vec<u8>>, &'static str) {
+fn shaped_collection(rng: &mut Rng, tier: Tier, which: usize, global: usize) -> (Vec<Vec<u8>>, &'static str) {
     match which % 13 {
         12 => {
             // one wide node: the fan-out sweeps over every encoding limit
             // (1-9, 64, 125-131, 252-256) by global index
-            (crate::walk::shaped_patterns(rng, (which / 13) * 10 + (which / 13) % 3), "wide node fan-out sweep")
+            let n = crate::walk::FANOUT[(global / 13) % crate::walk::FANOUT.len()];
+            (crate::walk::wide_node(rng, n), "wide node fan-out sweep")
         }
         0 => (vec![], "no patterns"),
         1 => ((0..rng.range(1, 4)).map(|_| vec![]).collect(), "only empty patterns"),
@@ -666,7 +667,10 @@ pub fn c20_check_one(rep: &mut Report, pats: &[Vec<u8>], cfg: &Cfg, shape: &str)
         u
     };
     let filler = (0..=255u8).rev().find(|&b| !used[b as usize]);
-    if let (Some(f), true) = (filler, cfg.supports(false)) {
+    // (when the patterns use all 256 byte values there is no filler byte: the
+    // pattern is then searched on its own)
+    let nfill = if filler.is_some() { 3 } else { 0 };
+    if let (f, true) = (filler.unwrap_or(0), cfg.supports(false)) {
         let fp: Vec<Vec<u8>> = if cfg.ci { pats.iter().map(|p| fold_vec(p)).collect() } else { pats.to_vec() };
         let step = (pats.len() / 40).max(1);
         let mut probed = 0;
@@ -674,18 +678,24 @@ pub fn c20_check_one(rep: &mut Report, pats: &[Vec<u8>], cfg: &Cfg, shape: &str)
             if pats[i].is_empty() {
                 continue;
             }
-            // skip patterns containing another pattern (the answer would
-            // legitimately be a different identifier)
-            if fp.iter().enumerate().any(|(j, q)| j != i && infix(q, &fp[i])) {
-                continue;
-            }
-            let mut hay = vec![f; 3];
+            let mut hay = vec![f; nfill];
             hay.extend_from_slice(&pats[i]);
-            hay.extend_from_slice(&[f; 3]);
+            hay.extend(std::iter::repeat(f).take(nfill));
+            // What must come back: for collections of moderate size the
+            // reference model says (another pattern inside this one may
+            // legitimately win); for big ones only patterns that contain no
+            // other pattern are probed, and the answer is the pattern itself.
+            let want = if pats.len() <= 600 {
+                crate::oracle::Oracle::new(pats, cfg.ci, cfg.kind).find(&hay, 0, hay.len(), false)
+            } else {
+                if fp.iter().enumerate().any(|(j, q)| j != i && infix(q, &fp[i])) {
+                    continue;
+                }
+                Some((i, nfill, nfill + pats[i].len()))
+            };
             let got = sem::call(|| s.try_find(Input::new(&hay)));
             rep.eval();
             probed += 1;
-            let want = Some((i, 3, 3 + pats[i].len()));
             if got != Ok(want) {
                 bad.push(("pattern_id", format!("searching filler + patterns[{}] + filler returned {:?}, expected {:?}", i, got, want)));
                 break;
@@ -776,7 +786,7 @@ pub fn run_c20(ctx: &Ctx, rep: &mut Report) {
     let mut root = Rng::new(ctx.seed).fork(0xC20 + ctx.shard as u64);
     for i in 0..n {
         let mut rng = root.fork(i as u64);
-        let (pats, shape) = shaped_collection(&mut rng, ctx.tier, i + ctx.shard);
+        let (pats, shape) = shaped_collection(&mut rng, ctx.tier, i + ctx.shard, i * ctx.nshards + ctx.shard);
         let total: usize = pats.iter().map(|p| p.len()).sum();
         if total <= 5000 {
             c20_convenience(rep, &pats);
